@@ -768,6 +768,22 @@ impl<E: Effect> Executor<E> {
         result: Value,
         heap: Vec<Vec<u8>>,
     ) -> Result<(), Error> {
+        self.store_awaited_result(awaiter, awaited, result, heap, true)
+    }
+
+    /// Store `awaited`'s result for `awaiter`. `answers_query` says whether this delivery also
+    /// answers the awaiter's outstanding query about `awaited`: a result that came through the
+    /// await protocol does, the co-located shortcut in `step` does not. A select that completed
+    /// on the shortcut alone would leave its own "not finished yet" answer in flight, to be taken
+    /// for the answer of the awaiter's next select that lists the same process.
+    fn store_awaited_result(
+        &mut self,
+        awaiter: ProcessId,
+        awaited: ProcessId,
+        result: Value,
+        heap: Vec<Vec<u8>>,
+        answers_query: bool,
+    ) -> Result<(), Error> {
         // Inject heap data into the result value
         let injected_result = self.inject_heap_data(result, &heap)?;
 
@@ -777,7 +793,9 @@ impl<E: Effect> Executor<E> {
         if self.get_process(awaiter).is_some() {
             self.retain(&injected_result);
             let process = self.get_process_mut(awaiter).unwrap();
-            process.await_unanswered.remove(&awaited);
+            if answers_query {
+                process.await_unanswered.remove(&awaited);
+            }
             let replaced = process.awaiting.insert(awaited, Some(injected_result));
             if let Some(Some(previous)) = replaced {
                 self.release(&previous);
@@ -1282,8 +1300,14 @@ impl<E: Effect> Executor<E> {
                 match &process_result {
                     Some(Ok(_)) => {
                         // Success - notify with the result value
-                        self.notify_result(awaiter, current_pid, result_value.clone(), vec![])
-                            .ok(); // Ignore errors since this is internal notification
+                        self.store_awaited_result(
+                            awaiter,
+                            current_pid,
+                            result_value.clone(),
+                            vec![],
+                            false,
+                        )
+                        .ok(); // Ignore errors since this is internal notification
                     }
                     Some(Err(error)) => {
                         // Error - propagate to awaiter by setting their result
